@@ -241,13 +241,33 @@ class FractionScalar(AbstractValueWithQuantityObject):
         # this is exactly the same comparison performed by the Scalar, however as they don't share
         # a base class where this method would fit, it was decided to implement it here, instead
         # of creating a base class just because of this method
+        v1, v2 = self._GetValuesToCompare(other)
+        return v1 < v2
+
+    def _GetValuesToCompare(self, other: Any) -> Tuple[FractionValue, FractionValue]:
+        """
+        :returns:
+            This value and the other value, both in the unit of this fraction scalar.
+        """
         if self.quantity_type != other.quantity_type:
             msg = "can not compare scalars of different quantity types: %r != %r"
-            raise TypeError(msg % self.quantity_type, other.quantity_type)
+            raise TypeError(msg % (self.quantity_type, other.quantity_type))
 
-        v1 = self._value
-        v2 = other.GetValue(self.unit)
-        return v1 < v2
+        return self._value, other.GetValue(self.unit)
+
+    # Note: the operators below are not left to total_ordering because it derives them from
+    # __eq__, which also compares the unit: 1 m > 100 cm and 100 cm > 1 m would both be True.
+    def __le__(self, other: Any) -> bool:
+        v1, v2 = self._GetValuesToCompare(other)
+        return v1 <= v2
+
+    def __gt__(self, other: Any) -> bool:
+        v1, v2 = self._GetValuesToCompare(other)
+        return v1 > v2
+
+    def __ge__(self, other: Any) -> bool:
+        v1, v2 = self._GetValuesToCompare(other)
+        return v1 >= v2
 
     # RegisterFractionScalarConversion -----------------------------------------
     @classmethod
